@@ -35,6 +35,8 @@ def main(run):
         run.prove(f"exploitability[n={n}]", S.sc_exploitability, {"n": n, "canary": n == 3},
                   fallback=(lambda n=n: run.bounded_run(f"fallback[n={n}]", S.sc_exploitability, {"n": n},
                                                         bounded_inputs(run, n, 100), bound="100 seeded bound tables")))
+        if n >= 3:
+            run.prove(f"exploitability.after_other_entry_points[n={n}]", S.sc_exploitability, {"n": n, "history": True})
         for i in range(n if n <= 6 else 2):
             run.prove(f"dominates[n={n},i={i}]", S.sc_exploitability_dominates, {"n": n, "i": i})
         run.prove(f"lemma.gap[n={n}]", S.lem_gap_monotone, {"n": n, "gap": "exploitability"}, lemma=True)
@@ -43,6 +45,10 @@ def main(run):
         cnt = (12 if n < 9 else 3) if run.tier == "quick" else (60 if n < 9 else 6)
         run.bounded_run(f"float[n={n}]", S.sc_exploitability, {"n": n}, bounded_inputs(run, n, cnt), tol=1e-9,
                         bound=f"{cnt} seeded bound tables (ordered, unordered, degenerate), relative tolerance 1e-9")
+        run.bounded_run(f"float.after_other_entry_points[n={n}]", S.sc_exploitability, {"n": n, "history": True},
+                        bounded_inputs(run, n, max(2, cnt // 4)), tol=1e-9,
+                        bound="the same after compute_shapley_value / compute_shapley_value_for_player / compute_exploitability "
+                              "were used on another game with the same player count in this process")
     return run.finish(
         explanation="compute_exploitability proved equal to (sum_i Shapley of the max-gain game) - v(N) and to the "
                     "binomially weighted gap for every real bound table with known grand coalition, per n; MaxGainGame's "
